@@ -24,7 +24,14 @@ static std::vector<Decl> declarations()
                                 D.items.push_back(Item::tog("tog", (t1 == 2 || t1 == 3) ? "t" : "",
                                                             t1 == 3 || t1 == 4));
                             if (t2)
-                                D.items.push_back(Item::tog("ugg", "u"));
+                            {
+                                // the second toggle lives in a named group (bundles then span groups)
+                                auto u = Item::tog("ugg", "u");
+                                u.group = "zgroup";
+                                D.items.push_back(u);
+                            }
+                            if (m && greedy)
+                                D.items[o ? 1 : 0].group = "agroup";
                             D.accepted = pos == 0 ? 0 : pos == 1 ? 1 : UNLIMITED;
                             D.greedy = greedy;
                             out.push_back(D);
@@ -36,6 +43,15 @@ static std::vector<Decl> declarations()
 static std::vector<std::string> alphabet(const Decl& D)
 {
     std::vector<std::string> a = { "x", "--", "--zz", "--zz=x", "-z", "-z=x" };
+    // undeclared names that extend / truncate a declared name
+    if (!D.items.empty())
+    {
+        auto& n = D.items[0].name;
+        a.push_back("--" + n + "x");
+        a.push_back("--" + n + "-x=x");
+        a.push_back("--" + n.substr(0, n.size() - 1));
+        a.push_back("--no-" + n + "x");
+    }
     bool t = D.by_short("t"), u = D.by_short("u"), o = D.by_short("o"), m = D.by_short("m");
     for (auto& i : D.items)
     {
